@@ -57,22 +57,43 @@ pub struct Case19 {
     pub err_at: Option<(usize, usize)>,
     /// (shard, extra): the stream of that shard yields `extra` more items than its size hint
     pub overlong: Option<(usize, usize)>,
+    /// the size hint of the over-long stream counts down as items are consumed
+    pub countdown: bool,
+    /// every shard's input answers Pending before these item positions (honest arm)
+    pub pending_before: Vec<usize>,
     pub seed: u64,
 }
 
 type Outputs = Vec<Vec<Out<Vec<u128>>>>;
 
+/// An input stream with a scripted environment: the upper size hint is `hint` (constant) or counts
+/// down with every item handed out (`countdown`), and the stream answers Pending (waking itself)
+/// before the items whose position is in `pending_before`.
 struct Lying<S> {
     inner: S,
     hint: usize,
+    countdown: bool,
+    pending_before: Vec<usize>,
+    handed_out: usize,
+    pended: bool,
 }
 impl<S: futures::Stream + Unpin> futures::Stream for Lying<S> {
     type Item = S::Item;
     fn poll_next(mut self: std::pin::Pin<&mut Self>, cx: &mut std::task::Context<'_>) -> std::task::Poll<Option<S::Item>> {
-        std::pin::Pin::new(&mut self.inner).poll_next(cx)
+        if !self.pended && self.pending_before.contains(&self.handed_out) {
+            self.pended = true;
+            cx.waker().wake_by_ref();
+            return std::task::Poll::Pending;
+        }
+        let r = std::pin::Pin::new(&mut self.inner).poll_next(cx);
+        if let std::task::Poll::Ready(Some(_)) = &r {
+            self.handed_out += 1;
+            self.pended = false;
+        }
+        r
     }
     fn size_hint(&self) -> (usize, Option<usize>) {
-        (0, Some(self.hint))
+        (0, Some(if self.countdown { self.hint.saturating_sub(self.handed_out) } else { self.hint }))
     }
 }
 
@@ -92,7 +113,8 @@ async fn world_run<const S: usize>(c: &Case19, interceptor: DynStreamInterceptor
             let overlong = c.overlong.and_then(|(os, e)| (os == s).then_some(e));
             futs.push(Box::pin(async move {
                 let pick = move |_ctx, rid: crate::protocol::RecordId, v: &Fp32BitPrime| ShardIndex::from(picker.pick(shards, s, usize::from(rid), v.as_u128()) as u32);
-                let res = if err_at.is_some() || overlong.is_some() {
+                let (countdown, pending_before) = (c.countdown, c.pending_before.clone());
+                let res = if err_at.is_some() || overlong.is_some() || !pending_before.is_empty() {
                     let n = input.len();
                     let mut items: Vec<Result<Fp32BitPrime, crate::error::Error>> = input.into_iter().map(Ok).collect();
                     if let Some(p) = err_at {
@@ -104,7 +126,7 @@ async fn world_run<const S: usize>(c: &Case19, interceptor: DynStreamInterceptor
                         }
                     }
                     let hint = if overlong.is_some() { n } else { items.len() };
-                    reshard_try_stream(ctx, Lying { inner: stream::iter(items), hint }, pick).await
+                    reshard_try_stream(ctx, Lying { inner: stream::iter(items), hint, countdown, pending_before, handed_out: 0, pended: false }, pick).await
                 } else {
                     reshard_iter(ctx, input, pick).await
                 };
@@ -139,7 +161,7 @@ pub fn reference(c: &Case19) -> Vec<Vec<u128>> {
 }
 
 fn case_json(c: &Case19) -> serde_json::Value {
-    json!({"shards":c.shards,"input":c.input.iter().map(|v| v.iter().map(|x| *x as u64).collect::<Vec<_>>()).collect::<Vec<_>>(),"picker":format!("{:?}", c.picker),"err_at":c.err_at.map(|x| vec![x.0,x.1]),"overlong":c.overlong.map(|x| vec![x.0,x.1]),"seed":c.seed})
+    json!({"shards":c.shards,"input":c.input.iter().map(|v| v.iter().map(|x| *x as u64).collect::<Vec<_>>()).collect::<Vec<_>>(),"picker":format!("{:?}", c.picker),"err_at":c.err_at.map(|x| vec![x.0,x.1]),"overlong":c.overlong.map(|x| vec![x.0,x.1]),"hint_counts_down":c.countdown,"pending_before":c.pending_before,"seed":c.seed})
 }
 
 fn inputs(n: usize, shards: usize, layout: usize) -> Vec<Vec<u128>> {
@@ -178,8 +200,20 @@ fn run() {
                     if !thorough && shards == 5 && n > 4 {
                         continue;
                     }
-                    cases.push(Case19 { shards, input: inputs(n, shards, layout), picker, err_at: None, overlong: None, seed: seed + 60 });
+                    cases.push(Case19 { shards, input: inputs(n, shards, layout), picker, err_at: None, overlong: None, countdown: false, pending_before: Vec::new(), seed: seed + 60 });
                 }
+            }
+        }
+    }
+    // the input streams are not ready at every poll: Pending before one position, before every position
+    for shards in [2usize, 3] {
+        let n = 6;
+        let per = inputs(n, shards, 0).iter().map(Vec::len).max().unwrap();
+        let mut scripts: Vec<Vec<usize>> = (0..=per).map(|p| vec![p]).collect();
+        scripts.push((0..=per).collect());
+        for pending_before in scripts {
+            for (picker, countdown) in [(Picker::ByValue, false), (Picker::AllTo(0), true)] {
+                cases.push(Case19 { shards, input: inputs(n, shards, 0), picker, err_at: None, overlong: None, countdown, pending_before: pending_before.clone(), seed: seed + 65 });
             }
         }
     }
@@ -198,6 +232,9 @@ fn run() {
         let want = reference(c);
         if c.input.iter().map(Vec::len).sum::<usize>() >= 2 && c.shards > 1 {
             r.inc("distinct_nontrivial");
+        }
+        if !c.pending_before.is_empty() {
+            r.inc("runs_with_pending_input");
         }
         let mut bad = None;
         for h in 0..3 {
@@ -220,10 +257,12 @@ fn run() {
         for es in 0..shards {
             let len = inputs(n, shards, 0)[es].len();
             for p in 0..=len {
-                ecases.push(Case19 { shards, input: inputs(n, shards, 0), picker: Picker::ByValue, err_at: Some((es, p)), overlong: None, seed: seed + 61 });
+                ecases.push(Case19 { shards, input: inputs(n, shards, 0), picker: Picker::ByValue, err_at: Some((es, p)), overlong: None, countdown: false, pending_before: Vec::new(), seed: seed + 61 });
             }
             for extra in [1usize, 2] {
-                ecases.push(Case19 { shards, input: inputs(n, shards, 0), picker: Picker::ByIndex, err_at: None, overlong: Some((es, extra)), seed: seed + 62 });
+                for countdown in [false, true] {
+                    ecases.push(Case19 { shards, input: inputs(n, shards, 0), picker: Picker::ByIndex, err_at: None, overlong: Some((es, extra)), countdown, pending_before: Vec::new(), seed: seed + 62 });
+                }
             }
         }
     }
@@ -248,8 +287,8 @@ fn run() {
         }
     }
     // ---- transport faults on shard-to-shard streams ------------------------------------------------------
-    let tcase = Case19 { shards: 3, input: inputs(9, 3, 0), picker: Picker::ByValue, err_at: None, overlong: None, seed: seed + 63 };
-    let tcase2 = Case19 { shards: 2, input: inputs(4, 2, 1), picker: Picker::AllTo(1), err_at: None, overlong: None, seed: seed + 64 };
+    let tcase = Case19 { shards: 3, input: inputs(9, 3, 0), picker: Picker::ByValue, err_at: None, overlong: None, countdown: false, pending_before: Vec::new(), seed: seed + 63 };
+    let tcase2 = Case19 { shards: 2, input: inputs(4, 2, 1), picker: Picker::AllTo(1), err_at: None, overlong: None, countdown: false, pending_before: Vec::new(), seed: seed + 64 };
     for tc in [&tcase, &tcase2] {
         // census of shard messages
         let seen: Arc<Mutex<Vec<(usize, u32, u32, String, usize)>>> = Arc::new(Mutex::new(Vec::new()));
